@@ -36,6 +36,9 @@ CHECKS["C09"] = ("controlled-schedule enumeration (DFS with replay) and rapid-dr
 CHECKS["C10"] = ("seeded concurrent stress under the race detector with a sequential-witness (linearizability-style) check of the recorded call history",
          "Rapid-drawn histories of 2..16 goroutines x up to 10^4 mixed registry calls over overlapping names on one VM, run in a -race worker at GOMAXPROCS 1..16; the worker must survive without a fatal concurrent-map error or race report, and the stamped history must admit a sequential witness (one winner per name, completed registrations visible, no phantom lookups, one global cell per name, final state = union).",
          "Go's scheduler owns the interleaving (stress, not schedule control): a green run is evidence, not exclusion; the race detector turns a latent race into a report without needing the bad interleaving.")
+CHECKS["C11"] = ("differential testing of generated HTTP handlers: concurrent (real goroutines / gated two-request interleavings) vs the same request served alone on a fresh VM",
+         "Generated route handlers reading request inputs through the request object and the superglobals; engine (i) 2..64 requests in flight (GOMAXPROCS varied, -race build in thorough), engine (ii) every placement of a gate between two reads with the other request run to completion in between; status, headers and body must equal the alone run.",
+         "In-process mux with httptest recorders; handlers avoid by-design shared state; the parallel engine does not own the schedule, the gated engine does.")
 NOT_YET = {
 }
 
